@@ -71,7 +71,7 @@ def plan(tier, seed):
         for i in range(3 if quick else 40):
             d = lops.gen_leaf(rng, kind, None, 34)
             if d is not None:
-                P.add("lin-big:" + kind, desc=d, mag=pick(rng, [1, 1, 1e-8, 1e8]))
+                P.add("lin-big:" + kind, desc=d, mag=pick(rng, [1, 1, 1e-10, 1e8]))
     rng = P.rng("lin:tree")
     for i in range(300 if quick else 8000):
         depth = int(rng.integers(1, 4 if quick else 5))
